@@ -99,7 +99,9 @@ P = {
          'antisymmetrically by the orientation of their partners (non-collinear) resp. by the operand (collinear, different operands), and '
          'collinear partners of one operand are proved to be the only gap; the segment order answers Equal exactly for the identical segment '
          'and is antisymmetric whenever the event order decides which left event comes first (every instance); the consumer theorem '
-         '(asymmetry => the bubble sort terminates sorted). Transitivity and agreement with the vertical order are NOT proved: they are '
+         '(asymmetry => the bubble sort terminates sorted); transitivity at the exact instance through the key and for left events at one '
+         'point with non-collinear later partners (orientation is transitive inside a half-plane). Chains through collinear partners and '
+         'agreement of the segment order with the vertical order are NOT proved: they are '
          'checked exhaustively on all lattice segment pairs, on float pairs in both precisions against both bit-exact models (signed '
          'zeros, nearly collinear points with adversarially wrong plain determinants) and on the event sets of generated inputs.', '§7 C15',
          'Coq: order theorems; exhaustive lattice correspondence; all-pairs/all-triples checks'),
